@@ -792,6 +792,10 @@ def to_hashable(  # noqa: C901, PLR0911, PLR0912
         mask = to_hashable(np_.ma.getmaskarray(obj), fallback_to_pickle)
         return (m, tp, (data, mask))
     if "numpy" in sys.modules and isinstance(obj, sys.modules["numpy"].ndarray):
+        if obj.dtype.hasobject:
+            # The elements are arbitrary objects (lists, dicts, ...) which might not be hashable
+            elements = tuple(to_hashable(x, fallback_to_pickle) for x in obj.flatten())
+            return (m, tp, (obj.shape, obj.dtype.str, elements))
         return (m, tp, (obj.shape, obj.dtype.str, tuple(obj.flatten())))
 
     # Handle pandas Series and DataFrames
